@@ -6,7 +6,7 @@
    [std_glob]    : independent transcription of path/filepath  Glob / globWithLimit / cleanGlobPath /
                    glob / hasMeta (pattern pre-check Match(pattern, ""), backslash is a meta character,
                    "dir == pattern" guard, depth limit 10000).
-   Both look paths up in the same [tree] (Model/Walk.v [lookup]); I/O errors do not exist in a
+   Both look paths up in the same [tree] (Model/Walk.v [tree_lookup]); I/O errors do not exist in a
    static tree (both implementations ignore them anyway). *)
 From AF Require Import Lib.Bytes Lib.Path Model.Walk.
 
@@ -168,8 +168,8 @@ Definition match_seg (pattern name : str) : option bool :=
 
 (* ======================= shared pieces ======================= *)
 
-Inductive gerr := GNil | GBadPattern | GOutOfFuel.
-Definition gres := (list str * gerr)%type.
+Inductive glob_err := GNil | GBadPattern | GOutOfFuel.
+Definition glob_res := (list str * glob_err)%type.
 
 (* sort.Strings / slices.Sort of the names of a directory *)
 Fixpoint insert_name (x : str) (l : list str) : list str :=
@@ -188,7 +188,7 @@ Definition has_meta (p : str) : bool :=
   existsb (fun c => N.eqb c STAR || N.eqb c QUEST || N.eqb c LBRACK) p.
 
 (* the `for _, n := range names` of glob *)
-Fixpoint afero_glob_names (dir pattern : str) (names : list str) (m : list str) : gres :=
+Fixpoint afero_glob_names (dir pattern : str) (names : list str) (m : list str) : glob_res :=
   match names with
   | [] => (m, GNil)
   | n :: r =>
@@ -200,15 +200,15 @@ Fixpoint afero_glob_names (dir pattern : str) (names : list str) (m : list str) 
   end.
 
 (* func glob(fs, dir, pattern, matches) *)
-Definition afero_glob1 (t : tree) (dir pattern : str) (matches : list str) : gres :=
-  match lookup t dir with
+Definition afero_glob1 (t : tree) (dir pattern : str) (matches : list str) : glob_res :=
+  match tree_lookup t dir with
   | None => (matches, GNil)                      (* fs.Stat(dir) failed *)
   | Some F => (matches, GNil)                    (* !fi.IsDir() *)
   | Some (D kids) => afero_glob_names dir pattern (sort_names (map fst kids)) matches
   end.
 
 (* for _, d := range m { matches, err = glob(fs, d, file, matches); if err != nil { return } } *)
-Fixpoint afero_glob_over (t : tree) (file : str) (ds : list str) (matches : list str) : gres :=
+Fixpoint afero_glob_over (t : tree) (file : str) (ds : list str) (matches : list str) : glob_res :=
   match ds with
   | [] => (matches, GNil)
   | d :: r =>
@@ -219,12 +219,12 @@ Fixpoint afero_glob_over (t : tree) (file : str) (ds : list str) (matches : list
   end.
 
 (* func Glob(fs, pattern) *)
-Fixpoint afero_glob_f (fuel : nat) (t : tree) (pattern : str) : gres :=
+Fixpoint afero_glob_f (fuel : nat) (t : tree) (pattern : str) : glob_res :=
   match fuel with
   | O => ([], GOutOfFuel)
   | S f =>
     if negb (has_meta pattern) then
-      match lookup t pattern with            (* lstatIfPossible(fs, pattern) *)
+      match tree_lookup t pattern with            (* lstatIfPossible(fs, pattern) *)
       | None => ([], GNil)
       | Some _ => ([pattern], GNil)
       end
@@ -240,7 +240,7 @@ Fixpoint afero_glob_f (fuel : nat) (t : tree) (pattern : str) : gres :=
         | (_, e) => ([], e)
         end
   end.
-Definition afero_glob (t : tree) (pattern : str) : gres :=
+Definition afero_glob (t : tree) (pattern : str) : glob_res :=
   afero_glob_f (S (length pattern)) t pattern.
 
 (* ======================= standard library: path/filepath/match.go ======================= *)
@@ -258,7 +258,7 @@ Definition clean_glob_path (p : str) : str :=
   | _ => if beqb p s_slash then p else chop_last p
   end.
 
-Fixpoint std_glob_names (dir pattern : str) (names : list str) (m : list str) : gres :=
+Fixpoint std_glob_names (dir pattern : str) (names : list str) (m : list str) : glob_res :=
   match names with
   | [] => (m, GNil)
   | n :: r =>
@@ -269,13 +269,13 @@ Fixpoint std_glob_names (dir pattern : str) (names : list str) (m : list str) : 
     end
   end.
 
-Definition std_glob1 (t : tree) (dir pattern : str) (matches : list str) : gres :=
-  match lookup t dir with
+Definition std_glob1 (t : tree) (dir pattern : str) (matches : list str) : glob_res :=
+  match tree_lookup t dir with
   | Some (D kids) => std_glob_names dir pattern (sort_names (map fst kids)) matches
   | _ => (matches, GNil)
   end.
 
-Fixpoint std_glob_over (t : tree) (file : str) (ds : list str) (matches : list str) : gres :=
+Fixpoint std_glob_over (t : tree) (file : str) (ds : list str) (matches : list str) : glob_res :=
   match ds with
   | [] => (matches, GNil)
   | d :: r =>
@@ -284,7 +284,7 @@ Fixpoint std_glob_over (t : tree) (file : str) (ds : list str) (matches : list s
   end.
 
 (* func globWithLimit(pattern, depth) *)
-Fixpoint std_glob_f (fuel : nat) (depth : N) (t : tree) (pattern : str) : gres :=
+Fixpoint std_glob_f (fuel : nat) (depth : N) (t : tree) (pattern : str) : glob_res :=
   match fuel with
   | O => ([], GOutOfFuel)
   | S f =>
@@ -293,7 +293,7 @@ Fixpoint std_glob_f (fuel : nat) (depth : N) (t : tree) (pattern : str) : gres :
     | None => ([], GBadPattern)
     | Some _ =>
       if negb (std_has_meta pattern) then
-        match lookup t pattern with          (* os.Lstat(pattern) *)
+        match tree_lookup t pattern with          (* os.Lstat(pattern) *)
         | Some _ => ([pattern], GNil)
         | None => ([], GNil)
         end
@@ -310,7 +310,7 @@ Fixpoint std_glob_f (fuel : nat) (depth : N) (t : tree) (pattern : str) : gres :
           end
     end
   end.
-Definition std_glob (t : tree) (pattern : str) : gres :=
+Definition std_glob (t : tree) (pattern : str) : glob_res :=
   std_glob_f (S (length pattern)) 0 t pattern.
 
 (* ======================= well-formedness ======================= *)
@@ -379,7 +379,7 @@ Definition matches (file n : str) : bool :=
   match match_seg file n with Some true => true | _ => false end.
 
 Definition glob_level (t : tree) (dir file : str) : list str :=
-  match lookup t dir with
+  match tree_lookup t dir with
   | Some (D kids) => map (fun n => path_join [dir; n]) (filter (matches file) (sort_names (map fst kids)))
   | _ => []
   end.
@@ -388,7 +388,7 @@ Fixpoint glob_spec_f (fuel : nat) (t : tree) (pat : str) : list str :=
   match fuel with
   | O => []
   | S f =>
-    if negb (has_meta pat) then match lookup t pat with Some _ => [pat] | None => [] end
+    if negb (has_meta pat) then match tree_lookup t pat with Some _ => [pat] | None => [] end
     else
       let dir := clean_glob_path (fst (path_split pat)) in
       let file := snd (path_split pat) in
